@@ -104,7 +104,35 @@ func spkiMutant(r *gen.Rng, pt []byte) ([]byte, string) {
 		}
 		return out
 	}
-	switch r.Intn(26) {
+	switch r.Intn(29) {
+	case 26, 27, 28:
+		// the exact header of ONE well-formed key followed by the body of ANOTHER form: the
+		// length octets no longer match what follows (a prefix fast path that skips the
+		// generic parser must re-check them)
+		full := tlv(0x30, append(alg(oidA, oidC, nil), bits(0, append([]byte{4}, make([]byte, 64)...))...)) // uncompressed layout
+		hdrU := full[:len(full)-65]
+		fullC := tlv(0x30, append(alg(oidA, oidC, nil), bits(0, append([]byte{2}, make([]byte, 32)...))...)) // compressed layout
+		hdrC := fullC[:len(fullC)-33]
+		valid := pt
+		if len(valid) != 65 && len(valid) != 33 {
+			valid = oracle.EncodeUncompressed(oracle.G())
+		}
+		P, err := oracle.DecodePoint(valid)
+		if err != nil || P.Inf {
+			P = oracle.G()
+		}
+		switch r.Intn(5) {
+		case 0:
+			return append(append([]byte{}, hdrU...), oracle.EncodeCompressed(P)...), "uncompressed-header+compressed-point"
+		case 1:
+			return append(append([]byte{}, hdrC...), oracle.EncodeUncompressed(P)...), "compressed-header+uncompressed-point"
+		case 2:
+			return append(append(append([]byte{}, hdrU...), oracle.EncodeUncompressed(P)...), r.Bytes(1+r.Intn(3))...), "exact-header+point+trailing"
+		case 3:
+			return append(append([]byte{}, hdrU...), oracle.EncodeUncompressed(P)[:1+r.Intn(64)]...), "exact-header+truncated-point"
+		default:
+			return append(append([]byte{}, hdrU...), 0x00), "uncompressed-header+identity"
+		}
 	case 0, 1, 2:
 		return std(), "canonical"
 	case 3:
